@@ -17,3 +17,4 @@ pub mod phase;
 pub mod rankwidth;
 pub mod scalar;
 pub mod simplify;
+pub mod tensor;
